@@ -524,8 +524,21 @@ class Runner:
                     if kind == "assign":
                         o.tensor = t
                     else:
+                        # the tensor OBJECT stays, its contents change, then the change notification (optimiser step)
                         with torch.no_grad():
-                            o.tensor.copy_(t)
+                            how = op.get("how", "copy_")
+                            if how == "add_":
+                                o.tensor.add_(t - o.tensor)
+                            elif how == "mul_" and bool((o.tensor.abs() > 1e-6).all()):
+                                o.tensor.mul_(t / o.tensor)
+                            elif how == "mul_":  # a zero entry cannot be rescaled to the new value
+                                o.tensor.add_(t - o.tensor)
+                            elif how == "index":
+                                flat_o, flat_t = o.tensor.reshape(-1), t.reshape(-1)
+                                for i in range(flat_t.numel()):
+                                    flat_o[i] = flat_t[i]
+                            else:
+                                o.tensor.copy_(t)
                         o.fire_parameter_changed()
                 except Exception as e:  # noqa: BLE001 — the implementation raised: that is an observation
                     raised, exc = True, exc_info(e)
@@ -773,8 +786,11 @@ def gen_update(g: Graph, rng, k, grad_on=frozenset()):
     if r < 0.50:
         t = rng.choice(sorted(G.LEAVES))
         v = value_for(g, t, rng)
-        return {"op": "assign" if rng.random() < 0.75 else "inplace", "target": t,
-                "value": v.reshape(-1).tolist(), "shape": list(v.shape)}
+        u = {"op": "assign" if rng.random() < 0.7 else "inplace", "target": t,
+             "value": v.reshape(-1).tolist(), "shape": list(v.shape)}
+        if u["op"] == "inplace":
+            u["how"] = rng.choice(["copy_", "add_", "mul_", "index"])
+        return u
     if r < 0.68:
         for _ in range(20):
             t = rng.choice([x for x in settable_ids(g) if x not in G.LEAVES])
@@ -1150,6 +1166,26 @@ def run(ck: Check):
     for u in singles[:: (1 if ck.thorough() else 22)]:
         if u["op"] != "propose":
             handle([dict(u)], "exhaustive/cold+1")
+    # UPDATE MODES on the parameters of the tree models (one model class, its parameter held as a plain Parameter,
+    # a CatParameter or a TransformedParameter): new tensor object, in-place mutation keeping the object (copy_, add_,
+    # mul_, element assignment) + notification, edit + same object assigned back, real operators, requires_grad
+    tree_leaves = ["shifts_p", "rrh_p", "ratios", "root_height", "heights2", "heights3", "differences", "bl"]
+    modes = [("assign", None), ("inplace", "copy_"), ("inplace", "add_"), ("inplace", "mul_"), ("inplace", "index"),
+             ("reassign", None), ("slide", None), ("grad", None)]
+    for lid in tree_leaves:
+        for mode, how in (modes if ck.thorough() else rng.sample(modes[:1], 1) + modes[1:5] + rng.sample(modes[5:], 2)):
+            v = value_for(g0, lid, rng)
+            if mode in ("assign", "inplace"):
+                u = {"op": mode, "target": lid, "value": v.reshape(-1).tolist(), "shape": list(v.shape)}
+                if how:
+                    u["how"] = how
+            elif mode == "reassign":
+                u = gen_reassign(g0, rng, lid)
+            elif mode == "slide":
+                u = {"op": "propose", "kind": "slide", "params": [lid], "seed": rng.randrange(1 << 30), "ref": 1, "tune": 0.02}
+            else:
+                u = {"op": "grad", "target": lid, "value": True}
+            handle([{"op": "evalall"}, u], "update-modes/tree-parameters")
     # several VALUE-EQUAL consumers of the same plain parameters (duplicate CatParameter / TransformedParameter /
     # ViewParameter wrappers, prefix lists, both build orders): evaluate one consumer, update a shared leaf (or
     # update THROUGH a twin), evaluate again — every consumer must follow
